@@ -23,6 +23,8 @@
 (*   Mark / Delete   marked for deletion in cluster state / deleted         *)
 (*   AddPod          another pending pod arrives                            *)
 (*   Restart         Karpenter restarts with empty cluster state            *)
+(*   Pass(.., fp)    another controller stores a NodeClaim for pod fp       *)
+(*                   inside the pass's batching window                      *)
 (*                                                                         *)
 (* Two layers, as in the code.  The MECHANISM is what state.Cluster         *)
 (* presents of an in-flight node at each lifecycle stage (View*: status     *)
@@ -45,6 +47,8 @@ EXTENDS MultiPassGuards, Json, SequencesExt
 CONSTANTS
     Catalogs, Limits, Daemons, Batches, Laters,   \* scenario scope (sets of ids)
     MaxRounds, MaxClaims, MaxSteps,
+    Resyncs,             \* whether a delivered pass may end with a NodeClaim-only re-delivery (history only: the order of informer events)
+    W_SyncBeforeBatch,   \* the Synced gate is evaluated before the batching window instead of after it
     EphForms, StForms,   \* forms of the ephemeral / startup taints on a node that appears (history only: same taints to Kubernetes)
     W_NoSyncGate,      \* a pass runs although a NodeClaim is not launched / not known to be launched
     W_SubMin,          \* the per-resource MINIMUM of the permitted types is charged against the limits
@@ -57,9 +61,9 @@ CONSTANTS
     C_NodesPerPass,    \* pinned tree: `nodes` is not charged for NodeClaims opened within a pass
     C_OverrideBase     \* pinned tree: limits are charged with the base capacity, capacity-override offerings ignored
 
-VARIABLES sc, pst, bto, home, cl, nc, ph, q, plc, opn, rem, sh, rounds, ns, bad, rst, h
-vars == <<sc, pst, bto, home, cl, nc, ph, q, plc, opn, rem, sh, rounds, ns, bad, rst, h>>
-view == <<sc, pst, bto, home, cl, nc, ph, q, plc, opn, rem, sh, rounds, ns, bad, rst>>
+VARIABLES sc, pst, bto, home, cl, nc, ph, q, plc, opn, rem, sh, rounds, ns, bad, rst, fgn, h
+vars == <<sc, pst, bto, home, cl, nc, ph, q, plc, opn, rem, sh, rounds, ns, bad, rst, fgn, h>>
+view == <<sc, pst, bto, home, cl, nc, ph, q, plc, opn, rem, sh, rounds, ns, bad, rst, fgn>>
 
 ----------------------------------------------------------------------------
 (* scenario space (record shapes of the driver's scenario JSON) *)
@@ -170,7 +174,7 @@ Sub3(r, k) == [cpu |-> IF r.cpu = Big THEN Big ELSE r.cpu - k.cpu, mem |-> IF r.
                nodes |-> IF r.nodes = Big \/ C_NodesPerPass THEN r.nodes ELSE r.nodes - 1]
 
 ----------------------------------------------------------------------------
-Stp(a, c, d, t, o, lb, z, e, pod) == [a |-> a, c |-> c, deliver |-> d, type |-> t, off |-> o, labels |-> lb, zero |-> z, eph |-> e, ephv |-> 0, stv |-> 0, pod |-> pod]
+Stp(a, c, d, t, o, lb, z, e, pod) == [a |-> a, c |-> c, deliver |-> d, type |-> t, off |-> o, labels |-> lb, zero |-> z, eph |-> e, ephv |-> 0, stv |-> 0, resync |-> FALSE, pod |-> pod]
 S1(a, c) == Stp(a, cl[c].opener, FALSE, "-", 0, FALSE, FALSE, FALSE, "-")
 Log(s) == h' = Append(h, s) /\ ns' = ns + 1
 More == ns < MaxSteps /\ ph = "idle"
@@ -179,11 +183,11 @@ Init ==
     /\ sc \in ScSpace
     /\ pst = [p \in PodNames |-> IF p = "w3" THEN "absent" ELSE "pending"] /\ bto = [p \in PodNames |-> 0] /\ home = [p \in PodNames |-> 0]
     /\ cl = [c \in 1..MaxClaims |-> NoClaim] /\ nc = 0 /\ ph = "idle" /\ q = <<>> /\ plc = [c \in 1..MaxClaims |-> {}] /\ opn = {}
-    /\ rem = [cpu |-> 0, mem |-> 0, nodes |-> 0] /\ sh = FALSE /\ rounds = 0 /\ ns = 0 /\ bad = [needless |-> FALSE, idem |-> FALSE] /\ rst = FALSE /\ h = <<>>
+    /\ rem = [cpu |-> 0, mem |-> 0, nodes |-> 0] /\ sh = FALSE /\ rounds = 0 /\ ns = 0 /\ bad = [needless |-> FALSE, idem |-> FALSE] /\ rst = FALSE /\ fgn = FALSE /\ h = <<>>
 
 \* ---- a pass
 Delivered == [c \in 1..MaxClaims |-> IF Launched(c) THEN [cl[c] EXCEPT !.known = TRUE] ELSE cl[c]]
-SyncedM(cc) == \A c \in Claims : cc[c].st # "created" /\ (cc[c].st \in {"launched", "appeared", "registered", "initialized"} => cc[c].known)
+SyncedOn(cc, n) == \A c \in 1..n : cc[c].st # "created" /\ (cc[c].st \in {"launched", "appeared", "registered", "initialized"} => cc[c].known)
 Resched(cc) == {p \in PodNames : pst[p] = "bound" /\ (cc[bto[p]].marked \/ cc[bto[p]].deleting)}
 BatchSet(cc) == {p \in PodNames : pst[p] = "pending"} \cup Resched(cc)
 \* Karpenter's queue order: cpu descending, memory descending, creation time
@@ -194,30 +198,43 @@ SameHomeM(cc) ==
     /\ B # {} /\ Resched(cc) = {} /\ (\A p \in B : home[p] # 0) /\ (\A p, r \in B : home[p] = home[r])
     /\ LET c == home[CHOOSE p \in B : TRUE] IN ~cc[c].marked /\ ~cc[c].deleting /\ cc[c].st # "none"
 Stale == \E c \in Claims : cl[c].st = "created" \/ (Launched(c) /\ ~cl[c].known)
-PassStart(d) ==
-    /\ More /\ rounds < MaxRounds
-    /\ (~d => Stale \/ rst)    \* a pass without delivery is only interesting when something is not launched / not known to be launched
-    /\ LET cc == IF d THEN Delivered ELSE cl IN
-       /\ cl' = cc /\ rounds' = rounds + 1 /\ Log(Stp("Pass", "-", d, "-", 0, FALSE, FALSE, FALSE, "-"))
-       /\ IF SyncedM(cc) \/ W_NoSyncGate
+AnyNodeAdmits(p) == \E c \in Claims : ViewAdmits(c, p)
+\* instance types a NodeClaim opened for pod p on the current state may use (limits as at the start of a pass)
+ItsFor(p) == {tn \in TypeNames : (LET k == TypeCap(tn) r == Rem0 IN r.nodes >= 1 /\ k.cpu <= r.cpu /\ k.mem <= r.mem) /\ Hosts(tn, {Key(p)})}
+(* ANOTHER controller (disruption replacement, ...) stores a NodeClaim for the pending pod fp through CreateNodeClaims while the  *)
+(* provisioner sits in its batching window: its own scheduling simulation on the delivered state finds no node for the pod.      *)
+\* That controller gates on Synced itself (disruption.Controller.Reconcile does), so every stored NodeClaim is launched and known.
+ForeignOK(fp) == /\ ~fgn /\ ~rst /\ nc < MaxClaims /\ fp \in PodNames /\ pst[fp] = "pending" /\ Delivered = cl /\ SyncedOn(cl, nc)
+                 /\ ~AnyNodeAdmits(fp) /\ ItsFor(fp) # {}
+PassStart(d, rs, fp) ==
+    LET fg == fp # "-"
+        cc0 == IF d THEN Delivered ELSE cl
+        cc == IF fg THEN [cc0 EXCEPT ![nc + 1] = [NoClaim EXCEPT !.st = "created", !.its = ItsFor(fp), !.pods = {fp}, !.opener = Key(fp)]] ELSE cc0
+        nn == IF fg THEN nc + 1 ELSE nc
+        \* the gate sees the foreign NodeClaim (CreateNodeClaims seeds cluster state) - unless it was evaluated before the window
+        syn == IF W_SyncBeforeBatch THEN SyncedOn(cc0, nc) ELSE SyncedOn(cc, nn)
+    IN /\ More /\ rounds < MaxRounds /\ (rs => d) /\ (fg => d /\ ForeignOK(fp))
+       /\ (~d => Stale \/ rst)    \* a pass without delivery is only interesting when something is not launched / not known to be launched
+       /\ cl' = cc /\ nc' = nn /\ rounds' = rounds + 1 /\ fgn' = (fgn \/ fg) /\ rst' = FALSE
+       /\ home' = IF fg THEN [home EXCEPT ![fp] = nc + 1] ELSE home
+       /\ Log([Stp("Pass", "-", d, "-", 0, FALSE, FALSE, FALSE, fp) EXCEPT !.resync = rs])
+       /\ IF syn \/ W_NoSyncGate
           THEN /\ ph' = "sched" /\ q' = SortSeq(SetToSeq(BatchSet(cc)), Before) /\ plc' = [c \in 1..MaxClaims |-> {}] /\ opn' = {}
                /\ sh' = SameHomeM(cc)
           ELSE UNCHANGED <<ph, q, plc, opn, sh>>
-    /\ rst' = FALSE
-    /\ UNCHANGED <<sc, pst, bto, home, nc, bad, rem>>
+       /\ UNCHANGED <<sc, pst, bto, bad, rem>>
 FixRem == ph = "sched" /\ q # <<>>
-AnyNodeAdmits(p) == \E c \in Claims : ViewAdmits(c, p)
 AnyOpenAdmits(p) == \E c \in opn : AdmitsClaim(cfg, OpenRec(c), PodRec(p))
 PlaceNode(c) ==
     /\ FixRem /\ ViewAdmits(c, Head(q))
     /\ plc' = [plc EXCEPT ![c] = @ \cup {Head(q)}] /\ home' = [home EXCEPT ![Head(q)] = c] /\ q' = Tail(q)
-    /\ UNCHANGED <<sc, pst, bto, cl, nc, ph, opn, rem, sh, rounds, ns, bad, h, rst>>
+    /\ UNCHANGED <<sc, pst, bto, cl, nc, ph, opn, rem, sh, rounds, ns, bad, h, rst, fgn>>
 PlaceOpen(c) ==
     /\ FixRem /\ ~AnyNodeAdmits(Head(q)) /\ c \in opn /\ AdmitsClaim(cfg, OpenRec(c), PodRec(Head(q)))
     /\ LET P == cl[c].pods \cup {Head(q)} IN
        cl' = [cl EXCEPT ![c] = [@ EXCEPT !.pods = P, !.its = {tn \in @ : Hosts(tn, {Key(p) : p \in P})}]]
     /\ home' = [home EXCEPT ![Head(q)] = c] /\ q' = Tail(q)
-    /\ UNCHANGED <<sc, pst, bto, nc, ph, plc, opn, rem, sh, rounds, ns, bad, h, rst>>
+    /\ UNCHANGED <<sc, pst, bto, nc, ph, plc, opn, rem, sh, rounds, ns, bad, h, rst, fgn>>
 OpenNew ==
     LET p == Head(q)
         r == IF opn = {} THEN Rem0 ELSE rem
@@ -233,12 +250,12 @@ OpenNew ==
                           idem |-> bad.idem \/ sh]
           ELSE /\ home' = [home EXCEPT ![p] = 0] /\ UNCHANGED <<nc, opn, cl, rem, bad>>      \* the pod stays pending
        /\ q' = Tail(q)
-       /\ UNCHANGED <<sc, pst, bto, ph, plc, sh, rounds, ns, h, rst>>
+       /\ UNCHANGED <<sc, pst, bto, ph, plc, sh, rounds, ns, h, rst, fgn>>
 PassEnd ==
     /\ ph = "sched" /\ q = <<>>
     /\ cl' = [c \in 1..MaxClaims |-> IF c \in opn THEN [cl[c] EXCEPT !.st = "created"] ELSE cl[c]]
     /\ ph' = "idle" /\ opn' = {}
-    /\ UNCHANGED <<sc, pst, bto, home, nc, q, plc, rem, sh, rounds, ns, bad, h, rst>>
+    /\ UNCHANGED <<sc, pst, bto, home, nc, q, plc, rem, sh, rounds, ns, bad, h, rst, fgn>>
 
 \* ---- the life of a NodeClaim
 Launch(c, tn, o) ==
@@ -246,7 +263,7 @@ Launch(c, tn, o) ==
     /\ LET t == TypeByName(cfg, tn) IN o + 1 \in DOMAIN t.offerings /\ OptionHosts(cfg, pool, t, t.offerings[o + 1], {Key(p) : p \in cl[c].pods})
     /\ cl' = [cl EXCEPT ![c] = [@ EXCEPT !.st = "launched", !.ty = tn, !.off = o]]
     /\ Log(Stp("Launch", cl[c].opener, FALSE, tn, o, FALSE, FALSE, FALSE, "-"))
-    /\ UNCHANGED <<sc, pst, bto, home, nc, ph, q, plc, opn, rem, sh, rounds, bad, rst>>
+    /\ UNCHANGED <<sc, pst, bto, home, nc, ph, q, plc, opn, rem, sh, rounds, bad, rst, fgn>>
 AppearVariants == {<<FALSE, TRUE, TRUE>>, <<TRUE, FALSE, FALSE>>, <<FALSE, FALSE, TRUE>>, <<TRUE, TRUE, FALSE>>}   \* labels, zero, eph
 \* ev: which known ephemeral taint and in which form (same taint by key + effect, different value / timeAdded): 1 not-ready NoSchedule,
 \* 2 not-ready NoExecute + timeAdded, 3 not-ready NoSchedule + timeAdded, 4 unreachable NoSchedule + timeAdded, 5 cloud-provider
@@ -256,37 +273,37 @@ Appear(c, v, ev, sv) ==
     /\ More /\ c \in Claims /\ cl[c].st = "launched" /\ ~cl[c].deleting /\ (v[3] <=> ev > 0)
     /\ cl' = [cl EXCEPT ![c] = [@ EXCEPT !.st = "appeared", !.lbl = v[1], !.zero = v[2], !.eph = v[3], !.startupT = TRUE]]
     /\ Log([Stp("Appear", cl[c].opener, FALSE, "-", 0, v[1], v[2], v[3], "-") EXCEPT !.ephv = ev, !.stv = sv])
-    /\ UNCHANGED <<sc, pst, bto, home, nc, ph, q, plc, opn, rem, sh, rounds, bad, rst>>
+    /\ UNCHANGED <<sc, pst, bto, home, nc, ph, q, plc, opn, rem, sh, rounds, bad, rst, fgn>>
 Register(c) ==
     /\ More /\ c \in Claims /\ cl[c].st = "appeared" /\ ~cl[c].deleting
     /\ cl' = [cl EXCEPT ![c] = [@ EXCEPT !.st = "registered"]] /\ Log(S1("Register", c))
-    /\ UNCHANGED <<sc, pst, bto, home, nc, ph, q, plc, opn, rem, sh, rounds, bad, rst>>
+    /\ UNCHANGED <<sc, pst, bto, home, nc, ph, q, plc, opn, rem, sh, rounds, bad, rst, fgn>>
 Partial(c) ==
     /\ More /\ c \in Claims /\ cl[c].st = "registered" /\ cl[c].startupT /\ (cl[c].eph \/ cl[c].zero)
     /\ cl' = [cl EXCEPT ![c] = [@ EXCEPT !.startupT = FALSE]] /\ Log(S1("Partial", c))
-    /\ UNCHANGED <<sc, pst, bto, home, nc, ph, q, plc, opn, rem, sh, rounds, bad, rst>>
+    /\ UNCHANGED <<sc, pst, bto, home, nc, ph, q, plc, opn, rem, sh, rounds, bad, rst, fgn>>
 Initialize(c) ==
     /\ More /\ c \in Claims /\ cl[c].st = "registered" /\ ~cl[c].deleting
     /\ cl' = [cl EXCEPT ![c] = [@ EXCEPT !.st = "initialized", !.startupT = FALSE, !.eph = FALSE, !.zero = FALSE]] /\ Log(S1("Init", c))
-    /\ UNCHANGED <<sc, pst, bto, home, nc, ph, q, plc, opn, rem, sh, rounds, bad, rst>>
+    /\ UNCHANGED <<sc, pst, bto, home, nc, ph, q, plc, opn, rem, sh, rounds, bad, rst, fgn>>
 Daemon(c) ==
     /\ More /\ c \in Claims /\ HasDs /\ cl[c].st \in {"registered", "initialized"} /\ ~cl[c].dmn
     /\ cl' = [cl EXCEPT ![c] = [@ EXCEPT !.dmn = TRUE]] /\ Log(S1("Daemon", c))
-    /\ UNCHANGED <<sc, pst, bto, home, nc, ph, q, plc, opn, rem, sh, rounds, bad, rst>>
+    /\ UNCHANGED <<sc, pst, bto, home, nc, ph, q, plc, opn, rem, sh, rounds, bad, rst, fgn>>
 Nominated(c) == {p \in PodNames : pst[p] = "pending" /\ home[p] = c}
 Bind(c) ==
     /\ More /\ c \in Claims /\ cl[c].st = "initialized" /\ ~cl[c].marked /\ ~cl[c].deleting /\ Nominated(c) # {}
     /\ pst' = [p \in PodNames |-> IF p \in Nominated(c) THEN "bound" ELSE pst[p]]
     /\ bto' = [p \in PodNames |-> IF p \in Nominated(c) THEN c ELSE bto[p]] /\ Log(S1("Bind", c))
-    /\ UNCHANGED <<sc, home, cl, nc, ph, q, plc, opn, rem, sh, rounds, bad, rst>>
+    /\ UNCHANGED <<sc, home, cl, nc, ph, q, plc, opn, rem, sh, rounds, bad, rst, fgn>>
 Mark(c) ==
     /\ More /\ c \in Claims /\ Launched(c) /\ cl[c].known /\ ~cl[c].marked /\ ~cl[c].deleting
     /\ cl' = [cl EXCEPT ![c] = [@ EXCEPT !.marked = TRUE]] /\ Log(S1("Mark", c))
-    /\ UNCHANGED <<sc, pst, bto, home, nc, ph, q, plc, opn, rem, sh, rounds, bad, rst>>
+    /\ UNCHANGED <<sc, pst, bto, home, nc, ph, q, plc, opn, rem, sh, rounds, bad, rst, fgn>>
 Delete(c) ==
     /\ More /\ c \in Claims /\ Launched(c) /\ ~cl[c].deleting /\ ~cl[c].marked
     /\ cl' = [cl EXCEPT ![c] = [@ EXCEPT !.deleting = TRUE]] /\ Log(S1("Delete", c))
-    /\ UNCHANGED <<sc, pst, bto, home, nc, ph, q, plc, opn, rem, sh, rounds, bad, rst>>
+    /\ UNCHANGED <<sc, pst, bto, home, nc, ph, q, plc, opn, rem, sh, rounds, bad, rst, fgn>>
 \* Karpenter restarts: cluster state forgets everything (what is launched has to be delivered again) and the next Synced()
 \* evaluation is the FIRST one of the new process (hydration path).  At every point of every NodeClaim's life, also while a
 \* NodeClaim is stored but not launched.  Not while a node is marked for deletion: the in-memory mark would be lost and a
@@ -295,14 +312,14 @@ Restart ==
     /\ More /\ nc > 0 /\ ~rst /\ (\A c \in Claims : ~cl[c].marked)
     /\ cl' = [c \in 1..MaxClaims |-> [cl[c] EXCEPT !.known = FALSE]] /\ rst' = TRUE
     /\ Log(Stp("Restart", "-", FALSE, "-", 0, FALSE, FALSE, FALSE, "-"))
-    /\ UNCHANGED <<sc, pst, bto, home, nc, ph, q, plc, opn, rem, sh, rounds, bad>>
+    /\ UNCHANGED <<sc, pst, bto, home, nc, ph, q, plc, opn, rem, sh, rounds, bad, fgn>>
 AddPod ==
     /\ More /\ sc.later # 0 /\ pst["w3"] = "absent"
     /\ pst' = [pst EXCEPT !["w3"] = "pending"] /\ Log(Stp("AddPod", "-", FALSE, "-", 0, FALSE, FALSE, FALSE, "w3"))
-    /\ UNCHANGED <<sc, bto, home, cl, nc, ph, q, plc, opn, rem, sh, rounds, bad, rst>>
+    /\ UNCHANGED <<sc, bto, home, cl, nc, ph, q, plc, opn, rem, sh, rounds, bad, rst, fgn>>
 
 Next ==
-    \/ \E d \in BOOLEAN : PassStart(d)
+    \/ \E d \in BOOLEAN, rs \in Resyncs, fp \in PodNames \cup {"-"} : PassStart(d, rs, fp)
     \/ \E c \in 1..MaxClaims : PlaceNode(c) \/ PlaceOpen(c)
     \/ OpenNew \/ PassEnd
     \/ \E c \in 1..MaxClaims : (\E tn \in {"A", "B"}, o \in 0..1 : Launch(c, tn, o)) \/ (\E v \in AppearVariants, ev \in EphForms \cup {0}, sv \in StForms : Appear(c, v, ev, sv))
